@@ -21,15 +21,33 @@ Functions under contract (all owned by C19; verified with their real bodies unle
           FilterUnit::add_attribute_refs    [attr-ref-<Variant>] per reference-bearing read::AttributeValue variant of
               ATTR_REFS, [attr-ref-only] every other variant adds nothing
           FilterUnit::require_entry         [require-in-bounds] (the debug_assert) / [require-entry]
+          FilterUnit::read_entry            (real body; cursor, `value()` and `filter_attributes` are contract-only stubs)
+              [entry-attr-refs]   for EVERY attribute the entry keeps, the references of its NORMALISED value
+                                  (`Attribute::value()`, ghost `value_spec()`, left uninterpreted and unrelated to the raw
+                                  `raw_spec()`) are in the dependency list registered for the entry: attr_covered(...) =
+                                  the conjunction of the add_attribute_refs clauses.  Passing `raw_value()`, or skipping
+                                  an attribute, fails this clause.
+              [entry-parent-edge] the entry depends on the innermost open entry that is shallower (is_parent_at over
+                                  the parent stack; it is the last recorded dependency); no such entry <=> parent None
+              [entry-registered] [entry-in-bounds] [entry-terminates];
+              [filter-unit-wf]    state invariant wf(): the cursor only reports offsets of its unit, every stacked parent
+                                  is in bounds and registered, every registered entry lies before the cursor -- this is
+                                  what discharges add_edge's `unwrap`, add_entry's `debug_assert` and the in-bounds
+                                  preconditions at their call sites.  (Established by FilterUnit::new: not decided.)
           OP_REFS / ATTR_REFS are checked against the enum definitions read from source (check_tables): a variant whose
           payload can name an entry and that is in no table is `Lost` (exit 2), so a new variant cannot go unnoticed.
           read::{UnitOffset::is_in_bounds, Expression::operations, Unit::encoding, UnitHeader::{offset, encoding},
           UnitRef::{locations, locations_offset}, Deref for Unit/UnitRef}, From<read::Error> for ConvertError: real bodies.
 
-EXPECTED FAILURES ON THE PINNED TREE = FINDING (native/src/bin/f_filter_1.rs):  add_expression_refs has no arm for
-  ImplicitPointer, VariableValue and EntryValue  ->  [C19:expr-ref-ImplicitPointer] [C19:expr-ref-VariableValue]
-  [C19:expr-ref-EntryValue] fail (reported on the loop invariant carrying the clause).  A filtered conversion then fails
-  with InvalidDebugInfoRef / InvalidUnitRef where the unfiltered conversion succeeds.
+FINDING (fixed in /repo by "fix: filtered conversion missed dependencies of three expression operations"; reproducer
+  native/src/bin/f_filter_1.rs now prints ok for all cases):  add_expression_refs had no arm for ImplicitPointer,
+  VariableValue and EntryValue, so [C19:expr-ref-ImplicitPointer] [C19:expr-ref-VariableValue] [C19:expr-ref-EntryValue]
+  failed (a filtered conversion failed with InvalidDebugInfoRef / InvalidUnitRef where the unfiltered one succeeded).
+  On the fixed tree the three clauses are proved.  The recursive walk of DW_OP_entry_value blocks terminates by
+  `decreases expression.0.rv().len` ([C19:expr-terminates]): the assumed model of OperationIter::next says the remaining
+  input never grows and the block of a decoded EntryValue is strictly shorter than the bytes it was decoded from (this is
+  [C07:decode-entry_value] + [C01:frame] of batch `op`).  [expr-ref-only] counts an EntryValue operation as the reason for
+  whatever its recursive walk adds (the same clause of the callee constrains that), and holds for Ok results.
 
 Assumed (TRUSTED; everything the generated file marks external_body / assume_specification):
   axiom_uso_key, axiom_uso_ord      derive(Hash, Eq, Ord) on the newtype UnitSectionOffset(usize) is a lawful key / orders by .0
@@ -45,12 +63,19 @@ Assumed (TRUSTED; everything the generated file marks external_body / assume_spe
   DebugInfoOffset::to_unit_section_offset   `!=` on derive(PartialEq) of SectionId has no Verus spec
   Dwarf::{locations, locations_offset}, LocListIter::next      MODEL types (not gimli text): read::Dwarf is the record of
                                     all section readers; results tied to uninterpreted ghost functions
+  Attribute::{value, raw_value}     contract-only: res == value_spec() / raw_spec() (the normalisation itself: batch `attrs`)
+  EntriesRaw (MODEL type), EntriesRaw::{is_empty, read_entry}   a read consumes input; the reported offset lies between the
+                                    old and the new read position and is an offset of the cursor's unit (units batch)
+  FilterUnit::filter_attributes     `retain` with a closure; assumed to change nothing but `attrs`
+  Option::<&T>::copied              no vstd spec
   core's reader_clone (R-CLONE on `expression.clone()`), verif_unreachable, Result::and_then
-  R-FIELDS: Unit.{abbreviations, line_program}, FilterUnit.entries dropped (untouched by the extracted methods)
+  R-FIELDS: Unit.{abbreviations, line_program} dropped (untouched by the extracted methods)
 
-Not decided here: FilterDependencies::default() (derived), FilterUnit::{new, read_entry, filter_attributes} (parent stack,
-  that `add_edge`'s and `add_entry`'s preconditions hold at their call sites, that read_entry calls add_attribute_refs for
-  every attribute), FilterUnitSection, ConvertUnitSection::{new_with_filter, reserve_unit}, ConvertUnit::{read_entry,
+Not decided here: FilterDependencies::default() (derived), FilterUnit::new (that it establishes wf()), which attributes
+  filter_attributes drops, the child edge of read_entry (`parent.tag != DW_TAG_namespace && has_die_back_edge()` => edge
+  parent -> entry: `!=` goes through the derived PartialEq of DwTag, which has no Verus spec, so the branch taken is
+  unknown to the verifier; add_edge's precondition IS proved for it), the value of `entry.parent` (set through
+  `Option::map` with an unannotated closure; only is-Some/is-None is known), FilterUnitSection, ConvertUnitSection::{new_with_filter, reserve_unit}, ConvertUnit::{read_entry,
   add_entry}, "writing never fails for a missing reference", attribute equality with the unfiltered conversion,
   AttributeValue::DebugTypesRef (type unit by signature) and DebugInfoRefSup (supplementary file): no edge, see ATTR_NOT_REFS.
 """
@@ -63,6 +88,7 @@ TRUSTED = list(core.TRUSTED) + [
     'axiom_uso_key', 'axiom_uso_ord',
     'std::collections::HashMap::<K1, V, S, A>::get_mut', 'SliceOf::<T>::sort_unstable',
     'has_attr', 'next', 'is_in_bounds', 'to_unit_section_offset', 'locations_offset', 'locations',
+    'value', 'raw_value', 'filter_attributes', 'EntriesRaw', 'is_empty', 'read_entry', 'core::option::Option::<&T>::copied',
     'Dwarf', 'LocListIter',      # abstract model types (external_body structs)
 ]
 
@@ -324,14 +350,23 @@ use crate::vspec::*;""")
     sk.add('read::unit', ru.item(r'^pub enum AttributeValue<R, Offset', label='AttributeValue').clean(rejrec=['R', 'Offset']))
     sk.add('read::unit', ru.item(r'^pub struct Attribute<R: Reader>', label='Attribute(struct)').clean(offset=False, rejrec=['R']))
     at = ru.item(r'^impl<R: Reader> Attribute<R> \{', label='Attribute')
-    at.keep_only(['name'])
+    at.keep_only(['name', 'raw_value', 'value'])
+    # contract-only here: `value()` is the 600-line normalisation verified against DWARF tables 7.5/7.6 in batch `attrs`
+    # (value_spec is left uninterpreted: the filter must pass exactly this value on, whatever it is); raw_value is `.clone()`
+    at.extbody(['raw_value', 'value'])
     at.clean(offset=False).own(['C19'])
-    at.insert_members('    pub closed spec fn spec_name(&self) -> constants::DwAt { self.name }')
+    at.insert_members('''    pub closed spec fn spec_name(&self) -> constants::DwAt { self.name }
+    /// the NORMALISED value (what `value()` returns)
+    pub uninterp spec fn value_spec(&self) -> AttributeValue<R>;
+    /// the raw value as decoded from the form
+    pub closed spec fn raw_spec(&self) -> AttributeValue<R> { self.value }''')
     at.splice('name', ret='res', ensures=['res == self.spec_name()'])
+    at.splice('raw_value', ret='res', ensures=['res == self.raw_spec()'])
+    at.splice('value', ret='res', ensures=['res == self.value_spec()'])
     sk.add('read::unit', at)
     sk.add('read::unit', ru.item(r'^pub struct DebuggingInformationEntry<R, Offset', label='DebuggingInformationEntry(struct)').clean(rejrec=['R', 'Offset']))
     die = ru.item(r'^impl<R, Offset> DebuggingInformationEntry<R, Offset>', label='DebuggingInformationEntry')
-    die.keep_only(['has_attr'])
+    die.keep_only(['has_attr', 'has_children'])
     # `.iter().any(closure)`: iterator adapter, outside Verus -> contract assumed (TRUSTED `has_attr`)
     die.extbody(['has_attr'])
     die.clean()
@@ -339,6 +374,8 @@ use crate::vspec::*;""")
         exists|i: int| 0 <= i < self.attrs@.len() && (#[trigger] self.attrs@[i]).spec_name() == name
     }""")
     die.splice('has_attr', ret='res', ensures=['res == self.has_attr_spec(name)'])
+    die.splice('has_children', ret='res', ensures=['res == self.has_children'])
+    die.own(['C19'])
     sk.add('read::unit', die)
 
 
@@ -522,6 +559,40 @@ pub proof fn lemma_covers_mono<R: Reader<Offset = usize>>(h: Hdr<R>, enc: Encodi
     assert forall|i: int| 0 <= i < ops.len() implies cov1_EntryValue(h, enc, #[trigger] ops[i], b) by {{
         assert(cov1_EntryValue(h, enc, ops[i], a));
     }}
+}}
+pub proof fn lemma_loclist_mono<R: Reader<Offset = usize>>(h: Hdr<R>, enc: Encoding, l: Seq<crate::read::LocationListEntry<R>>, a: Seq<K>, b: Seq<K>)
+    requires covers_loclist(h, enc, l, a), a.is_prefix_of(b),
+    ensures covers_loclist(h, enc, l, b),
+{{
+    assert forall|i: int| 0 <= i < l.len() implies covers_expr::<R>(h, enc, (#[trigger] l[i]).data.0.rv(), b) by {{
+        lemma_covers_mono::<R>(h, enc, l[i].data.0.rv(), a, b);
+    }}
+}}
+/// in the parent stack ps (depth, offset), element j is the innermost one that is shallower than depth d
+pub open spec fn is_parent_at(ps: Seq<(isize, crate::read::UnitOffset<usize>)>, d: isize, j: int) -> bool {{
+    0 <= j < ps.len() && ps[j].0 < d && forall|j2: int| j < j2 < ps.len() ==> (#[trigger] ps[j2]).0 >= d
+}}
+pub type AV<R> = crate::read::AttributeValue<R, usize>;
+/// every entry that the attribute value `value` references (directly, from its expression or its location list) is in deps
+/// -- the conjunction of the [C19:attr-ref-*] clauses of add_attribute_refs (ATTR_REFS)
+pub open spec fn attr_covered<R: Reader<Offset = usize>>(h: Hdr<R>, enc: Encoding, dwarf: &crate::read::Dwarf<R>, unit: &crate::read::Unit<R>, value: AV<R>, deps: Seq<K>) -> bool {{
+    &&& (value matches AttributeValue::UnitRef(x) ==> (h.in_bounds_spec(x) ==> deps.contains(uso_unit(h, x))))
+    &&& (value matches AttributeValue::DebugInfoRef(x) ==> deps.contains(UnitSectionOffset(x.0)))
+    &&& (value matches AttributeValue::Exprloc(x) ==> covers_expr::<R>(h, enc, x.0.rv(), deps))
+    &&& (value matches AttributeValue::LocationListsRef(x) ==> covers_loclist(h, enc, loclist_entries(dwarf, unit, x), deps))
+    &&& (value matches AttributeValue::DebugLocListsIndex(x) ==> covers_loclist(h, enc, loclist_entries(dwarf, unit, loclists_offset_spec(dwarf, unit, x)), deps))
+}}
+pub proof fn lemma_attr_covered_mono<R: Reader<Offset = usize>>(h: Hdr<R>, enc: Encoding, dwarf: &crate::read::Dwarf<R>, unit: &crate::read::Unit<R>, value: AV<R>, a: Seq<K>, b: Seq<K>)
+    requires attr_covered(h, enc, dwarf, unit, value, a), a.is_prefix_of(b),
+    ensures attr_covered(h, enc, dwarf, unit, value, b),
+{{
+    lemma_contains_prefix(a, b);
+    match value {{
+        AttributeValue::Exprloc(x) => {{ lemma_covers_mono::<R>(h, enc, x.0.rv(), a, b); }}
+        AttributeValue::LocationListsRef(x) => {{ lemma_loclist_mono(h, enc, loclist_entries(dwarf, unit, x), a, b); }}
+        AttributeValue::DebugLocListsIndex(x) => {{ lemma_loclist_mono(h, enc, loclist_entries(dwarf, unit, loclists_offset_spec(dwarf, unit, x)), a, b); }}
+        _ => {{}}
+    }}
 }}''')
     return '\n'.join(out)
 
@@ -543,6 +614,36 @@ impl<R: Reader<Offset = usize>> Dwarf<R> {
         ensures res matches Ok(it) ==> it.entries() == loclist_entries(self, unit, offset)
     { unimplemented!() }
 }
+'''
+
+ENTRIES_MODEL = '''
+// ---- MODEL (not gimli text): the raw DIE cursor `EntriesRaw` (reader + abbreviations + depth) is an abstract type.
+// Assumed about it (units batch: C01 progress / C02 offsets): a read consumes input; the reported entry offset lies at or
+// after the previous read position and before the new one; every offset it reports is one of its unit (`yields`).
+#[verifier::external_body]
+#[verifier::reject_recursive_types(R)]
+#[derive(Debug)]
+pub struct EntriesRaw<'abbrev, R: Reader> { pub model_only: core::marker::PhantomData<&'abbrev R> }
+impl<'abbrev, R: Reader<Offset = usize>> EntriesRaw<'abbrev, R> {
+    pub uninterp spec fn remaining(&self) -> nat;
+    pub uninterp spec fn next_off(&self) -> nat;
+    pub uninterp spec fn yields(&self, o: UnitOffset<usize>) -> bool;
+    #[verifier::external_body]
+    pub fn is_empty(&self) -> (res: bool)
+        ensures res == (self.remaining() == 0)
+    { unimplemented!() }
+    #[verifier::external_body]
+    pub fn read_entry(&mut self, entry: &mut DebuggingInformationEntry<R>) -> (res: Result<bool>)
+        ensures
+            res is Ok ==> final(self).remaining() < old(self).remaining(),
+            final(self).next_off() >= old(self).next_off(),
+            forall|o: UnitOffset<usize>| final(self).yields(o) == old(self).yields(o),
+            res matches Ok(true) ==> old(self).yields(final(entry).offset) && old(self).next_off() <= final(entry).offset.0 < final(self).next_off(),
+    { unimplemented!() }
+}
+pub assume_specification<'a, T>[core::option::Option::<&T>::copied](o: Option<&'a T>) -> (r: Option<T>)
+    where T: Copy
+    ensures r == (match o { Some(x) => Some(*x), None => None::<T> });
 '''
 
 LOCLIST_MODEL = '''
@@ -577,7 +678,7 @@ def populate_refs(ctx, sk):
     check_tables(op.item(r'^pub enum Operation<R, Offset').clean().text, ru.item(r'^pub enum AttributeValue<R, Offset').clean().text)
     sk.mods['fspec']['uses'] += '''
 use crate::common::*;
-use crate::read::{Reader, Operation, DieReference};
+use crate::read::{Reader, Operation, DieReference, AttributeValue};
 use crate::vspec::RView;'''
     sk.add('fspec', ref_specs(), label='ref_tables')
 
@@ -641,6 +742,7 @@ use crate::vspec::RView;'''
               requires=['[C19:uso-in-bounds] unit.in_bounds_spec(*self)'],
               ensures=['res.0.as_nat() == unit.spec_offset().0.as_nat() + self.0.as_nat()'])
     sk.add('read::unit', uo)
+    sk.add('read::unit', ENTRIES_MODEL, label='EntriesRaw(model)')
 
     # ---- read::{rnglists, loclists, dwarf}
     sk.mods['read']['uses'] += '\npub use self::rnglists::*;\npub use self::loclists::*;\npub use self::dwarf::*;'
@@ -667,6 +769,8 @@ use crate::fspec::*;''')
     ui.splice('encoding', ret='res', ensures=['res == self.header.spec_encoding()'])
     sk.add('read::dwarf', ui)
     sk.add('read::dwarf', rdw.item(r"^pub struct UnitRef<'a, R: Reader>", label='UnitRef(struct)').clean(rejrec=['R']))
+    sk.add('read::dwarf', rdw.item(r"^impl<'a, R: Reader> Clone for UnitRef<'a, R>", label='Clone for UnitRef').clean().own(['C19']))
+    sk.add('read::dwarf', rdw.item(r"^impl<'a, R: Reader> Copy for UnitRef<'a, R>", label='Copy for UnitRef').clean())
     urd = rdw.item(r"^impl<'a, R: Reader> core::ops::Deref for UnitRef<'a, R>", label='Deref for UnitRef').clean()
     urd.own(['C19']).splice('deref', ret='res', ensures=['*res == self.unit'])
     sk.add('read::dwarf', urd)
@@ -697,7 +801,6 @@ use crate::read::reader_clone;'''
 
     sk.add(M, wu.item(r'^    struct FilterParent \{', within=CONVERT, label='FilterParent').clean())
     fu = wu.item(r"^    pub struct FilterUnit<'a, R: Reader<Offset = usize>>", within=CONVERT, label='FilterUnit(struct)')
-    fu.custom('R-FIELDS', "entries: read::EntriesRaw<'a, R>,", '')    # DIE cursor: units batch; untouched by the extracted methods
     fu.clean()
     fu.prepend('#[verifier::reject_recursive_types(R)]')
     ctx.count('R-REJREC')
@@ -708,8 +811,9 @@ use crate::read::reader_clone;'''
 def populate_filter_unit(ctx, sk, wu):
     M = 'write::unit::convert'
     imp = wu.item(r"^    impl<'a, R: Reader<Offset = usize>> FilterUnit<'a, R> \{", within=CONVERT, label='FilterUnit')
-    # not extracted: `new`/`read_entry` (DIE cursor, parent stack: not decided), `filter_attributes` (`retain` with a closure)
-    imp.drop(['new', 'null_entry', 'read_entry', 'filter_attributes'])
+    # not extracted: `new` (abbreviation lookup), `null_entry` (DebuggingInformationEntry::null)
+    imp.drop(['new', 'null_entry'])
+    imp.extbody(['filter_attributes'])      # `retain` with a closure; contract: only `attrs` changes
     # R-CLONE: derived Clone of Expression<R> has no Verus spec; a clone of a reader has the same view (core: reader_clone)
     imp.custom('R-CLONE', 'expression.clone()', 'read::Expression(reader_clone(&expression.0))')
     imp.clean()
@@ -794,6 +898,7 @@ def populate_filter_unit(ctx, sk, wu):
         f'[C19:attr-ref-Exprloc] value matches read::AttributeValue::Exprloc(x) ==> res is Ok ==> covers_expr::<R>({H}, {ENC}, x.0.rv(), {FD})',
         f'[C19:attr-ref-LocationListsRef] value matches read::AttributeValue::LocationListsRef(x) ==> res is Ok ==> covers_loclist({H}, {ENC}, loclist_entries(old(self).read_unit.dwarf, old(self).read_unit.unit, x), {FD})',
         f'[C19:attr-ref-DebugLocListsIndex] value matches read::AttributeValue::DebugLocListsIndex(x) ==> res is Ok ==> covers_loclist({H}, {ENC}, loclist_entries(old(self).read_unit.dwarf, old(self).read_unit.unit, loclists_offset_spec(old(self).read_unit.dwarf, old(self).read_unit.unit, x)), {FD})',
+        f'[C19:attr-refs-all] res is Ok ==> attr_covered({H}, {ENC}, old(self).read_unit.dwarf, old(self).read_unit.unit, value, {FD})',
         f'[C19:attr-ref-only] !(value is UnitRef || value is DebugInfoRef || value is Exprloc || value is LocationListsRef || value is DebugLocListsIndex) ==> {FD} == {OD} && res is Ok',
     ] + FRAME)
 
@@ -802,13 +907,138 @@ def populate_filter_unit(ctx, sk, wu):
                requires=['[C19:require-in-bounds] old(self).hdr().in_bounds_spec(offset)'],
                ensures=['[C19:require-entry] final(self).dep_req() == old(self).dep_req().push(uso_unit(old(self).hdr(), offset))',
                         '[C19:require-entry] final(self).dep_graph() == old(self).dep_graph()'], canary=True)
+    populate_read_entry(imp)
     imp.insert_after("impl<'a, R: Reader<Offset = usize>> FilterUnit<'a, R> {", '''
         // ghost accessors for the private dependency graph
         pub closed spec fn dep_graph(&self) -> G { self.deps.graph() }
         pub closed spec fn dep_req(&self) -> Seq<K> { self.deps.req() }
         pub closed spec fn hdr(&self) -> Hdr<R> { self.read_unit.unit.header }
+        pub closed spec fn udwarf(&self) -> &read::Dwarf<R> { self.read_unit.dwarf }
+        pub closed spec fn uunit(&self) -> &read::Unit<R> { self.read_unit.unit }
+        pub closed spec fn cursor_remaining(&self) -> nat { self.entries.remaining() }
+        /// the stack of open parents: (depth, unit offset), innermost last
+        pub closed spec fn parent_stack(&self) -> Seq<(isize, read::UnitOffset<usize>)> { self.parents@.map_values(|p: FilterParent| (p.depth, p.offset)) }
+        /// well-formedness of the filter state between two read_entry calls (established by `new`: not decided here)
+        pub closed spec fn wf(&self) -> bool { self.wf_at(self.entries.next_off() as int, self.parents@) }
+        /// the cursor only reports entries of this unit; every parent on the stack `ps` is in bounds and registered;
+        /// every registered entry lies before `bound` (unit-relative) -- so the next entry is fresh
+        spec fn wf_at(&self, bound: int, ps: Seq<FilterParent>) -> bool {
+            &&& forall|o: read::UnitOffset<usize>| #[trigger] self.entries.yields(o) ==> self.hdr().in_bounds_spec(o)
+            &&& forall|i: int| 0 <= i < ps.len() ==> self.hdr().in_bounds_spec((#[trigger] ps[i]).offset) && self.deps.graph().contains_key(uso_unit(self.hdr(), ps[i].offset))
+            &&& forall|k: K| #[trigger] self.deps.graph().contains_key(k) ==> k.0 < self.hdr().spec_offset().0 + bound
+        }
 ''')
     sk.add(M, imp)
+
+
+def populate_read_entry(imp):
+    """FilterUnit::read_entry: which value of each attribute is walked, parent edge, registration, state invariant"""
+    HS = 'old(self).hdr()'
+    OFF = 'final(entry).read_entry.offset'
+    EO = f'uso_unit({HS}, {OFF})'
+    imp.splice('filter_attributes', ret='res', ensures=[
+        'res is Ok',
+        'final(entry).read_unit == old(entry).read_unit && final(entry).parent == old(entry).parent && final(entry).parent_tag == old(entry).parent_tag',
+        'final(entry).read_entry.tag == old(entry).read_entry.tag && final(entry).read_entry.has_children == old(entry).read_entry.has_children',
+        'final(entry).read_entry.offset == old(entry).read_entry.offset && final(entry).read_entry.depth == old(entry).read_entry.depth'])
+    imp.insert_after('for attr in ', 'it: ')
+    ATT = 'entry.read_entry.attrs@'
+    COV = lambda a, d: f'attr_covered({HS}, {HS}.spec_encoding(), old(self).udwarf(), old(self).uunit(), {a}.value_spec(), {d})'
+    imp.splice('read_entry', ret='res', attrs='#[verifier::loop_isolation(false)]\n#[verifier::allow_complex_invariants]',   # (no canary twin: the loop-anchored ghost insertions are added after the splice; vacuity was probed with assert(false))
+               requires=['[C19:filter-unit-wf] old(self).wf()'],
+               ensures=[
+                   '[C19:filter-unit-wf] res is Ok ==> final(self).wf()',
+                   f'[C19:entry-registered] res matches Ok(true) ==> final(self).dep_graph().contains_key({EO})',
+                   # THE clause of the "raw instead of normalised" class: the NORMALISED value of every (kept) attribute is walked
+                   f'[C19:entry-attr-refs] res matches Ok(true) ==> forall|i: int| 0 <= i < final(entry).read_entry.attrs@.len() ==> '
+                   + COV('(#[trigger] final(entry).read_entry.attrs@[i])', f'final(self).dep_graph()[{EO}]@'),
+                   # the entry depends on its parent = the innermost open entry that is shallower (ancestors stay connected)
+                   f'[C19:entry-parent-edge] res matches Ok(true) && final(entry).parent is Some ==> exists|j: int| is_parent_at(old(self).parent_stack(), final(entry).read_entry.depth, j) '
+                   f'&& final(self).dep_graph()[{EO}]@.len() > 0 && final(self).dep_graph()[{EO}]@.last() == uso_unit({HS}, #[trigger] old(self).parent_stack()[j].1)',
+                   '[C19:entry-parent-edge] res matches Ok(true) && final(entry).parent is None ==> forall|j: int| 0 <= j < old(self).parent_stack().len() ==> (#[trigger] old(self).parent_stack()[j]).0 >= final(entry).read_entry.depth',
+                   f'[C19:entry-in-bounds] res matches Ok(true) ==> {HS}.in_bounds_spec({OFF})',
+                   'final(self).hdr() == old(self).hdr() && final(self).udwarf() == old(self).udwarf() && final(self).uunit() == old(self).uunit()',
+                   '[C19:require-entry] final(self).dep_req() == old(self).dep_req()'],
+               loops={
+                   0: '''invariant
+                    self.wf(), self.read_unit == old(self).read_unit, self.deps.req() == old(self).deps.req(), // [C19:filter-unit-wf]
+                    self.parents@ == old(self).parents@,
+                decreases self.entries.remaining(), // [C19:entry-terminates]''',
+                   1: '''invariant
+                    self.wf_at(entry.read_entry.offset.0 as int, self.parents@), self.read_unit == old(self).read_unit, self.deps.req() == old(self).deps.req(),
+                    self.entries == cur1, self.deps.graph() == g1,
+                    self.parents@.len() <= old(self).parents@.len(), self.parents@ == old(self).parents@.take(self.parents@.len() as int),
+                    forall|j: int| self.parents@.len() <= j < old(self).parents@.len() ==> (#[trigger] old(self).parents@[j]).depth >= entry.read_entry.depth, // [C19:entry-parent-edge]
+                ensures self.parents@.len() > 0 ==> self.parents@.last().depth < entry.read_entry.depth, // [C19:entry-parent-edge]
+                decreases self.parents@.len(),''',
+                   2: f'''invariant
+                    *self == s2, *entry == e2,
+                    forall|i: int| 0 <= i < it.index@ ==> {COV('(#[trigger] ' + ATT + '[i])', 'deps@')}, // [C19:entry-attr-refs]'''},
+               before=[
+                   ('while let Some(parent) = self.parents.last()', 'let ghost cur1 = self.entries; let ghost g1 = self.deps.graph();'),
+                   ('if entry.has_children() {', 'let ghost ps = self.parents@;'),
+                   ('for attr in', 'let ghost s2 = *self; let ghost e2 = *entry;'),
+                   ('self.deps.add_entry(entry_offset, deps);', f'''let ghost dfin = deps@; let ghost dloop2 = dloop;
+                proof {{
+                    assert(entry.parent is Some <==> parent is Some);
+                    let ops = old(self).parents@; let st = old(self).parent_stack();
+                    assert(st.len() == ops.len());
+                    assert forall|j: int| 0 <= j < ops.len() implies (#[trigger] st[j]) == (ops[j].depth, ops[j].offset) by {{}}
+                    if parent is Some {{
+                        let j = ps.len() - 1;
+                        assert(ps[j] == ops[j]);
+                        assert(parent == Some(ps[j]));
+                        assert(is_parent_at(st, entry.read_entry.depth, j)); // [C19:entry-parent-edge]
+                        assert(dfin.last() == uso_unit({HS}, st[j].1)); // [C19:entry-parent-edge]
+                    }} else {{
+                        assert(ps.len() == 0); // [C19:entry-parent-edge]
+                    }}
+                    assert forall|i: int| 0 <= i < {ATT}.len() implies {COV('(#[trigger] ' + ATT + '[i])', 'dfin')} by {{
+                        lemma_attr_covered_mono({HS}, {HS}.spec_encoding(), old(self).udwarf(), old(self).uunit(), {ATT}[i].value_spec(), dloop2, dfin);
+                    }}
+                }}'''),
+               ],
+               after=[
+                   ('self.parents.pop();', 'proof { assert(self.parents@ =~= old(self).parents@.take(self.parents@.len() as int)); }'),
+               ])
+    insert_after_loop(imp, 'read_entry', 2, 'let ghost dloop = deps@;')
+    # anchored on the loop, not on the call statement: a change of the argument expression must be judged, not `Lost`
+    insert_at_loop_body(imp, 'read_entry', 2, 'let ghost dprev = deps@; proof { assert(*attr == ' + ATT + '[it.index@]); }', end=False)
+    insert_at_loop_body(imp, 'read_entry', 2, f'''proof {{
+                        assert forall|i: int| 0 <= i < it.index@ implies {COV('(#[trigger] ' + ATT + '[i])', 'deps@')} by {{
+                            lemma_attr_covered_mono({HS}, {HS}.spec_encoding(), old(self).udwarf(), old(self).uunit(), {ATT}[i].value_spec(), dprev, deps@);
+                        }}
+                    }}''', end=True)
+
+
+def insert_at_loop_body(item, fn, ordinal, ghost, end):
+    """ghost text at the start (end=False) or end (end=True) of the body of the `ordinal`-th loop of `fn`"""
+    check_ghost(ghost)
+    insert_after_loop(item, fn, ordinal, 'proof { }')
+    probe = ins('\nproof { }\n')
+    i = item.text.index(probe)
+    assert item.text[i - 1] == '}'
+    t = item.text[:i] + item.text[i + len(probe):]
+    close = i - 1
+    if end:
+        item.text = t[:close] + ins('\n' + ghost + '\n') + t[close:]
+        return item
+    # matching open brace of the loop body: scan backwards counting braces outside insertions/strings is not needed here
+    # (gimli loop bodies contain no braces in strings); insertions are skipped by working on sentinel-free offsets
+    depth, k = 0, close
+    while True:
+        if t.startswith(INS_C, k - len(INS_C) + 1):
+            k = t.rfind(INS_O, 0, k) - 1
+            continue
+        if t[k] == '}':
+            depth += 1
+        elif t[k] == '{':
+            depth -= 1
+            if depth == 0:
+                break
+        k -= 1
+    item.text = t[:k + 1] + ins('\n' + ghost + '\n') + t[k + 1:]
+    return item
 
 
 def insert_after_loop_body_end(item, fn, ordinal, ghost):
